@@ -8,8 +8,11 @@ META = {
     "design_ref": "5/C04",
     "coq_targets": ["Props/Properties_C04.vo", "Search/MergeCheck.vo"],
     "coq_files": ["Gen/SearchConsts.v", "Gen/S256Consts.v", "S256/S256.v", "S256/ReadersProofs.v", "Search/Search.v", "Search/Merge.v",
-                  "Search/MergeProofs.v", "Search/MergeCheck.v", "Props/Properties_C04.v"],
-    "theorems": ["C04_cursor_roundtrip_int", "C04_cursor_roundtrip_partial", "C04_old_checksum_cursor_refuted"],
+                  "Search/MergeProofs.v", "Search/MergeLoop.v", "Search/MergeLoopProofs.v", "Search/MergeClasses.v", "Search/MergeCheck.v",
+                  "Props/Properties_C04.v"],
+    "theorems": ["C04_merge", "C04_merge_sorted", "C04_merge_int", "C04_union_spec", "C04_agree_id", "C04_agree_int", "C04_agree_text",
+                 "C04_agree_oid", "C04_agree_owner", "C04_associate_absent_refuted",
+                 "C04_cursor_roundtrip_int", "C04_cursor_roundtrip_partial", "C04_old_checksum_cursor_refuted"],
     "technique": "Coq proof that the Gallina transcription of CalculateCursor rebuilds the index key of the last item for every primary attribute "
                  "class (numeric via C05 parse/print round trip; text codecs as premises) + differential correspondence of that transcription with "
                  "objectcore.CalculateCursor, acceptance of the rebuilt cursor by PreprocessSearchQuery, and comparison of objectcore.MergeSearchResults "
